@@ -144,13 +144,24 @@ def jwk_users(ctx):
     for member in ("n", "e", "d", "p", "dq"):
         v = good[member]
         for pos in sorted({1, len(v) // 2, len(v) - 1} if len(v) > 4 else {1}):
-            for junk in ("!", " ", "\n", "*", ".", "\x7f"):        # not "=": the decoder documents that it stops at the first pad
+            for junk in ("!", " ", "\n", "*", ".", "\x7f", "\x00", "\u00e9", "\x80", "\u20ac"):   # not "=": the decoder documents that it stops at the first pad
                 j2 = dict(good)
                 j2[member] = v[:pos] + junk + v[pos:]
                 bads.append(("%s with %r at %d" % (member, junk, pos), j2))
         j2 = dict(good)
         j2[member] = v + "\n"
         bads.append(("%s with a trailing newline" % member, j2))
+    # the same for the octets of an oct key and the coordinates of an EC key (an escaped NUL, non-ASCII text included:
+    # whether the JSON reader or the decoder refuses it, what follows the foreign byte never becomes key material)
+    okv = ref_encode(rng.randbytes(32)).decode()
+    ec = K.gen_key("ec", "P-256", ctx.scratch).jwk(private=False)
+    for junk in ("!", " ", "\x00", "\u00e9", "\x80", "*"):
+        for pos in (0, 4, len(okv) // 2, len(okv)):
+            bads.append(("oct k with %r at %d" % (junk, pos), {"kty": "oct", "k": okv[:pos] + junk + okv[pos:]}))
+        for member in ("x", "y"):
+            j2 = dict(ec)
+            j2[member] = ec[member] + junk + "AAAA"
+            bads.append(("EC %s followed by %r and more text" % (member, junk), j2))
     rlines = []
     for _, j2 in bads:
         rlines += ["jwks 2 del", "jwks 2 load " + hx(_json.dumps(j2).encode()), "jwks 2 item 0"]
@@ -159,10 +170,10 @@ def jwk_users(ctx):
     for i, (what, j2) in enumerate(bads):
         out = eo2[3 * i + 2] if 3 * i + 2 < len(eo2) else "<crash>"
         got = dict(t.split("=", 1) for t in out.split() if "=" in t)
-        if got.get("err") != "1":
+        if got.get("err") != "1" and out != "none":          # refused: the item is flagged, or the document was not taken at all
             rbad += 1
             if rbad <= 2:
-                ctx.violation("falsifier:jwk-rsa-member", "RSA JWK whose member is %s imports without error (bits=%s)" % (what, got.get("bits")),
+                ctx.violation("falsifier:jwk-rsa-member", "JWK whose member is %s imports without error (bits=%s)" % (what, got.get("bits")),
                               replay_lines=rlines[3 * i:3 * i + 3], detail="impl: %s" % out)
     if rc2 != 0:
         ctx.violation("sanitizer", "executor died (rc=%s) while importing RSA keys with malformed members" % rc2, replay_lines=rlines[:3 * (len(eo2) // 3 + 1)], detail=err2[-1500:])
